@@ -279,6 +279,9 @@ def in_statements():
         'other-table-distinct': select([(j, None)], from_='u', distinct=True),
         'empty-table': select([(j, None)], from_='e'),
         'empty-by-where': select([(j, None)], from_='u', where=A.Equal(C(1), C(2))),
+        'all-null-rows': select([(j, None)], from_='u', where=A.IsNull(j)),          # rows, but only NULL values: not "no row"
+        'all-null-expr': select([(A.Add(j, C(None)) if False else F('int', s), 'n')], from_='u'),   # int('a') is NULL for every row
+        'null-and-values': select([(j, None)], from_='u', where=A.Or([A.IsNull(j), A.Greater(j, C(0))])),
         'agg': select([(F('max', j), 'm')], from_='u'),
         'from-subquery': select([(col('jj'), None)], from_=select([(j, 'jj')], from_='u', where=A.IsNotNull(j))),
         'nested-in': select([(v, None)], from_='t', where=A.In(v, select([(j, None)], from_='u'))),
